@@ -37,9 +37,9 @@ CHECKS["C11"] = ("exploration", "exhaustive enumeration of complete finite space
 CHECKS["C14"] = ("model_checking", "bounded-exhaustive exploration of the real code: all histories of D steps including OS repeat events at every point, over a generated universe of key-producing action forms nested up to depth 2 on 1-3 layers with/without overrides; per-step safety oracle and a completeness probe at every leaf",
   "No explored repeat event produces more than one output, a non-repeat output, or a repeat for a key that is up at the OS; wherever a single held physical key holds output keys down, its repeat is forwarded to one of them. Exhaustive over the stated space.",
   "completeness probed only where the attribution of the down-set to the held key is certain (single non-layer key, no layer released since its press)", "DESIGN.md §4 C14")
-CHECKS["C07"] = ("model_checking", "bounded-exhaustive exploration of a loop twin of start_processing_loop over the real code (can_block_update_idle_waiting / handle_input_event / tick_ms), every history of D steps executed in two modes (block-when-allowed vs always-tick) and compared on ms-stamped outputs; stutter-invariance of the full state digest at every tick taken in a blockable state",
+CHECKS["C07"] = ("model_checking", "bounded-exhaustive exploration of a loop twin of start_processing_loop over the real code (can_block_update_idle_waiting / handle_input_event / tick_ms), every history of D steps executed in two modes (block-when-allowed vs always-tick) and compared on ms-stamped outputs; stutter-invariance of the full state digest at every tick taken in a blockable state; the twin is bound to the code by a conformance family that replays 25 scripted traces against the REAL threaded Kanata::start_processing_loop (real channel and clock, wall-clock margins >= 10x) and compares outputs and executed ticks with the twin's prediction",
   "For every explored history the blocking loop and the always-ticking loop emit identical ms-stamped outputs, and every tick taken where blocking is allowed is a no-op on the complete state digest (which, by determinism, extends the equality to all gap lengths and continuations from that state).",
-  "thread interleavings of the real threaded loop and scheduler jitter are not explored (see assumptions); live reload is C15", "DESIGN.md §4 C07")
+  "thread interleavings of the real threaded loop and scheduler jitter are not explored exhaustively (the conformance family runs the real threads but is wall-clock, not exhaustive); live reload is C15", "DESIGN.md §4 C07")
 CHECKS["C08"] = ("model_checking", "bounded-exhaustive exploration of the real code: all macro bodies up to L items over an 8-item grammar x 8 macro variants, each with release / other-key events at every tick offset of the expansion, plus the 1..6 concurrent-macros family; checked against an independent expansion of the body (prefix-closed for cancel variants) with timing obligations",
   "For every enumerated (body, variant, history) the projection of the real output onto the macro's keys is the body's expansion (or a legal cancelled prefix), steps are on distinct ticks, stated delays are respected, repeating stops with the key, and nothing the macro pressed stays pressed.",
   "2 ticks of processing slack at cancel/release instants; cancel-on-press of repeat forms only required during the first round (documentation ambiguity); custom-item lag is a known finding", "DESIGN.md §4 C08")
